@@ -13,6 +13,9 @@ type Renderer struct {
 	TableAliases []string
 	depth        int
 	ctes         []string // WITH definitions collected while rendering
+	// Params renders literals marked P as `?` and collects their values in ParamVals (in text order).
+	Params    bool
+	ParamVals []Value
 }
 
 type scope []string // SQL name of each ordinal of the current FROM row
@@ -101,7 +104,14 @@ func (r *Renderer) tail(sb *strings.Builder, q *Query) {
 			}
 		}
 	}
-	if q.Limit >= 0 {
+	if q.Limit >= 0 && r.Params && q.LimitParam {
+		sb.WriteString(" LIMIT ?")
+		r.ParamVals = append(r.ParamVals, Int(q.Limit))
+		if q.Offset > 0 {
+			sb.WriteString(" OFFSET ?")
+			r.ParamVals = append(r.ParamVals, Int(q.Offset))
+		}
+	} else if q.Limit >= 0 {
 		sb.WriteString(fmt.Sprintf(" LIMIT %d", q.Limit))
 		if q.Offset > 0 {
 			sb.WriteString(fmt.Sprintf(" OFFSET %d", q.Offset))
@@ -184,6 +194,10 @@ func (r *Renderer) exprs(es []*Expr, scopes []scope) string {
 func (r *Renderer) expr(e *Expr, scopes []scope) string {
 	switch e.K {
 	case "lit":
+		if r.Params && e.P {
+			r.ParamVals = append(r.ParamVals, *e.V)
+			return "?"
+		}
 		return e.V.SQL()
 	case "col":
 		return scopes[e.D][e.I-1]
